@@ -66,7 +66,7 @@ PROPS['C01'] = dict(
 )
 
 PROPS['C04'] = dict(
-    prop_modules=['Vise.Props.C04'], lean_targets=['Vise.Props.C04'], suites=['engine'],
+    prop_modules=['Vise.Props.C04', 'Vise.Props.C04Reset'], lean_targets=['Vise.Props.C04', 'Vise.Props.C04Reset'], suites=['engine'],
     compare={'engine': eng(['x', 'p', 'i'])},
     trusted=ENGINE_TRUSTED + ["the move table is transcribed by hand from doc/texinfo/navigation.texi into specMove"],
     assumptions=["SizeIdx wrap at 65536 consecutive 'next' moves is modelled (mod 65536) but not replayed"],
